@@ -914,6 +914,58 @@ thread_local! {
     static WARMED: std::cell::Cell<bool> = const { std::cell::Cell::new(false) };
 }
 
+/// Process-wide state that the two families might share (a `static` inside a generic function is one item for all
+/// instantiations) is filled by whoever comes first. Before any check runs, every front-end of one family, then of the
+/// other, is given the frames on which the families differ (v5 AUTH, DISCONNECT with and without a body, CONNECTs of the
+/// three protocol levels, CONNACKs, body-less and bodied forms): the main process lets v3 come first, the child processes
+/// of the release / unoptimised runs let v5 come first, so that both orders are exercised by one check run.
+pub fn process_warm(v3_first: bool) {
+    use futures_lite::future::block_on;
+    let frames: [&[u8]; 12] = [
+        &[0xF0, 0x00],
+        &[0xF0, 0x02, 0x18, 0x00],
+        &[0xE0, 0x00],
+        &[0xE0, 0x01, 0x00],
+        &[0xE0, 0x02, 0x00, 0x00],
+        &[0x10, 0x0C, 0x00, 0x04, b'M', b'Q', b'T', b'T', 0x04, 0x02, 0x00, 0x00, 0x00, 0x00],
+        &[0x10, 0x0D, 0x00, 0x04, b'M', b'Q', b'T', b'T', 0x05, 0x02, 0x00, 0x00, 0x00, 0x00, 0x00],
+        &[0x10, 0x0E, 0x00, 0x06, b'M', b'Q', b'I', b's', b'd', b'p', 0x03, 0x02, 0x00, 0x00, 0x00, 0x00],
+        &[0x20, 0x02, 0x00, 0x00],
+        &[0x20, 0x03, 0x00, 0x00, 0x00],
+        &[0x62, 0x02, 0x00, 0x01],
+        &[0x62, 0x04, 0x00, 0x01, 0x00, 0x00],
+    ];
+    let run3 = || {
+        for f in frames {
+            let _ = v3::Packet::decode(f);
+            let mut r: &[u8] = f;
+            let _ = block_on(v3::Packet::decode_async(&mut r));
+            let mut st: GenericPollPacketState<v3::Header> = Default::default();
+            let mut r: &[u8] = f;
+            let _ = block_on(GenericPollPacket::new(&mut st, &mut r));
+            let _ = v3::Header::decode(f);
+        }
+    };
+    let run5 = || {
+        for f in frames {
+            let _ = v5::Packet::decode(f);
+            let mut r: &[u8] = f;
+            let _ = block_on(v5::Packet::decode_async(&mut r));
+            let mut st: GenericPollPacketState<v5::Header> = Default::default();
+            let mut r: &[u8] = f;
+            let _ = block_on(GenericPollPacket::new(&mut st, &mut r));
+            let _ = v5::Header::decode(f);
+        }
+    };
+    if v3_first {
+        run3();
+        run5();
+    } else {
+        run5();
+        run3();
+    }
+}
+
 /// A bridge or a broker serves both protocol families on one thread. On the worker threads with an odd shard number the
 /// first decode of a family is therefore preceded by a decode of a small packet of the *other* family through every
 /// front-end: whatever per-thread state the two families might share is then already filled by the other one.
